@@ -42,7 +42,10 @@ class V:
     __slots__ = ("val", "st")
 
     def __init__(self, val, st=None):
-        self.val = unV(val)
+        val = unV(val)
+        if type(val).__name__ == "NanOr":
+            val = val.value     # clauses speak about the number; NaN-ness is stated through IrrLib's flag
+        self.val = val
         self.st = st
 
     # -- helpers
